@@ -83,6 +83,9 @@ macro_rules! forward_display {
         impl fmt::$impl for NInt {
             fn fmt(&self, formatter: &mut fmt::Formatter) -> fmt::Result {
                 match self {
+                    // sign-and-magnitude like BigInt, not i64's two's complement, so that the
+                    // rendering of a negative number does not depend on its representation
+                    NInt::Small(n) if *n < 0 => fmt::$impl::fmt(&BigInt::from(*n), formatter),
                     NInt::Small(n) => fmt::$impl::fmt(n, formatter),
                     NInt::Big(n) => fmt::$impl::fmt(n, formatter),
                 }
